@@ -51,7 +51,7 @@ func plainActions(t fataler) []string {
 }
 
 var c14ArgActions = []string{"put(x)", "put(é)", "put( )", "change-query(ab)", "change-query()", "pos(3)", "pos(-1)", "pos(0)", "change-prompt(>> )", "change-prompt()", "change-header(H1\nH2)", "change-header()",
-	"change-preview-window(up,30%)", "change-preview-window(hidden)", "change-preview-window(right,50%,wrap)", "change-preview-window(bottom,1)", "change-preview-window(left,90%,border-none)",
+	"change-preview-window(up,30%)", "change-preview-window(up,70%)", "change-preview-window(down,20%)", "change-preview-window(down,80%)", "change-preview-window(right,50%,border-none)", "change-preview-window(right,50%,border-top)", "change-preview-window(hidden)", "change-preview-window(right,50%,wrap)", "change-preview-window(bottom,1)", "change-preview-window(left,90%,border-none)",
 	"change-preview(echo other {})", "preview(echo tmp {})", "execute-silent(true)", "execute-silent(sleep 0.05)", "reload(seq 7)", "reload(printf 'a\\nb')", "reload-sync(seq 3)", "reload(true)",
 	"change-multi(2)", "change-multi(0)", "change-multi", "change-nth(1)", "change-nth(..)", "change-pointer(>>)", "change-pointer()", "change-ghost(type)", "change-border-label( L )", "change-list-label(ll)",
 	"change-input-label(il)", "change-header-label(hl)", "change-preview-label(pl)", "transform-query(echo q)", "transform(echo up+down)", "transform-prompt(echo P)", "transform-header(echo TH)",
@@ -167,7 +167,19 @@ func c14Session(t *rapid.T) {
 	}
 	for i := 0; i < nsteps && alive; i++ {
 		var step string
-		switch rapid.SampledFrom([]string{"plain", "plain", "plain", "arg", "arg", "keys", "keys", "resize", "chain", "mouse", "mouse"}).Draw(t, "kind") {
+		switch rapid.SampledFrom([]string{"plain", "plain", "plain", "arg", "arg", "keys", "keys", "resize", "resize-one-way", "chain", "mouse", "mouse"}).Draw(t, "kind") {
+		case "resize-one-way":
+			// only the height or only the width changes (a window above/below or beside the list keeps its other extent)
+			if rapid.Bool().Draw(t, "heightOnly") {
+				h = rapid.SampledFrom([]int{3, 6, 10, 13, 25, 40}).Draw(t, "newH")
+			} else {
+				w = rapid.SampledFrom([]int{9, 20, 40, 61, 100, 150}).Draw(t, "newW")
+			}
+			step = fmt.Sprintf("resize %dx%d", w, h)
+			s.Resize(w, h)
+			if w < 20 || h < 6 {
+				tiny = true
+			}
 		case "mouse":
 			// a gesture in SGR mouse reports: press, a few drag reports, release - on the edges of the
 			// window (scrollbar, borders), inside it and outside of it
